@@ -242,10 +242,108 @@ def check_no_registry_skip(ctx: CheckContext, p: Program, r: Resolver, funcs: Li
     return n
 
 
+# ------------------------------------------------------------------------------------------ MEMO-KEY (snapshot form)
+def _snapshot_fields(ci: ClassInfo, f: FuncInfo, e: ast.AST, depth: int = 0) -> Optional[Set[str]]:
+    """self fields a snapshot expression is made of: a tuple of self.<x> (through once-assigned locals), or a self-method returning such a tuple"""
+    if depth > 3:
+        return None
+    if isinstance(e, ast.Tuple):
+        out: Set[str] = set()
+        for el in e.elts:
+            sub = _snapshot_fields(ci, f, el, depth + 1)
+            if sub is None:
+                return None
+            out |= sub
+        return out
+    if _is_stored(e):
+        return {e.attr}
+    if isinstance(e, ast.Call) and isinstance(e.func, ast.Name) and e.func.id in ("tuple", "float", "id", "round", "str", "len") and e.args:
+        return _snapshot_fields(ci, f, e.args[0], depth + 1)
+    if isinstance(e, ast.Name):
+        defs = [a.value for a in body_nodes(f) if isinstance(a, ast.Assign) and any(isinstance(t, ast.Name) and t.id == e.id for t in a.targets)]
+        defs = [d for d in defs if not any(isinstance(x, ast.Name) and x.id == e.id for x in ast.walk(d))]      # x = tuple(x): a re-packing of itself
+        if not defs:
+            return None
+        out = set()
+        for d in defs:
+            sub = _snapshot_fields(ci, f, d, depth)
+            if sub is None:
+                return None
+            out |= sub
+        return out
+    if isinstance(e, ast.Call) and isinstance(e.func, ast.Attribute) and isinstance(e.func.value, ast.Name) and e.func.value.id in ("self",) and not e.args:
+        g = ci.methods.get(e.func.attr)
+        if g is None:
+            return None
+        rets = [x for x in body_nodes(g) if isinstance(x, ast.Return) and x.value is not None]
+        if not rets:
+            return None
+        out = set()
+        for rt in rets:
+            sub = _snapshot_fields(ci, g, rt.value, depth + 1)
+            if sub is None:
+                return None
+            out |= sub
+        return out
+    return None
+
+
+def check_snapshot_guards(ctx: CheckContext, p: Program, r: Resolver, classes: List[ClassInfo], rule: str = "MEMO-KEY") -> int:
+    """`if <snapshot of inputs> == self._last: return` in a recompute method: every constructor-supplied field the recomputation reads is in the snapshot."""
+    n = 0
+    for ci in classes:
+        init = ci.methods.get("__init__")
+        if init is None:
+            continue
+        params = {a.arg for a in init.params}
+        base = set()
+        for a in body_nodes(init):
+            if isinstance(a, (ast.Assign, ast.AnnAssign)) and a.value is not None:
+                tg = a.targets if isinstance(a, ast.Assign) else [a.target]
+                if any(isinstance(x, ast.Name) and x.id in params for x in ast.walk(a.value)):
+                    base |= {t.attr for t in tg if _is_stored(t)}
+        for f in ci.methods.values():
+            body = [x for x in f.node.body if not (isinstance(x, ast.Expr) and isinstance(x.value, ast.Constant))]
+            for i, st in enumerate(body):
+                if not (isinstance(st, ast.If) and not st.orelse and len(st.body) == 1 and isinstance(st.body[0], ast.Return) and isinstance(st.test, ast.Compare)
+                        and len(st.test.ops) == 1 and isinstance(st.test.ops[0], ast.Eq)):
+                    continue
+                l, rr = st.test.left, st.test.comparators[0]
+                saved, snap = (rr, l) if _is_stored(rr) and not _is_stored(l) else ((l, rr) if _is_stored(l) and not _is_stored(rr) else (None, None))
+                if saved is None:
+                    continue
+                fields = _snapshot_fields(ci, f, snap)
+                if not fields:
+                    continue
+                # what the rest of the method (and the methods of the class it calls) reads
+                reads: Set[str] = set()
+                writes: Set[str] = set()
+                seen: Set[str] = set()
+                stack = list(body[i + 1:])
+                while stack:
+                    node = stack.pop()
+                    for x in ast.walk(node):
+                        if _is_stored(x) and isinstance(x.ctx, ast.Load):
+                            reads.add(x.attr)
+                        if _is_stored(x) and isinstance(x.ctx, ast.Store):
+                            writes.add(x.attr)
+                        if isinstance(x, ast.Call) and isinstance(x.func, ast.Attribute) and isinstance(x.func.value, ast.Name) and x.func.value.id == "self" \
+                                and x.func.attr in ci.methods and x.func.attr not in seen:
+                            seen.add(x.func.attr)
+                            stack.append(ci.methods[x.func.attr].node)
+                for fld in sorted((reads & base) - writes - {saved.attr}):
+                    n += 1
+                    ok = fld in fields
+                    ctx.ob(rule, f"{f.qualname}:snapshot:{fld}", f"{f.module.relpath}:{st.lineno}", ok,
+                           "" if ok else f"{ci.name}.{f.name} skips its recomputation when a snapshot of {sorted(fields)} is unchanged, but the recomputation also reads "
+                                         f"'{fld}' (set from a constructor argument): after a change of '{fld}' alone the derived values stay stale")
+    return n
+
+
 def check_all(ctx: CheckContext, p: Program, r: Resolver, funcs: List[FuncInfo]) -> int:
     """the three cache disciplines over a set of functions and the classes they belong to"""
     classes = []
     for f in funcs:
         if f.cls is not None and f.cls not in classes:
             classes.append(f.cls)
-    return check_memo_keys(ctx, p, r, funcs) + check_memo_dependencies(ctx, p, r, classes) + check_no_registry_skip(ctx, p, r, funcs)
+    return check_memo_keys(ctx, p, r, funcs) + check_snapshot_guards(ctx, p, r, classes) + check_memo_dependencies(ctx, p, r, classes) + check_no_registry_skip(ctx, p, r, funcs)
